@@ -289,7 +289,8 @@ def reproducibility_case(ctx, rng, idx):
     # process-wide generators: numpy's legacy one, python's, and (40%
     # of the cases) the generator owned by scipy's truncnorm distribution
     # object, which scipy documents as a way of seeding a distribution
-    own = bool(rng.random() < 0.4)
+    own = bool(rng.random() < 0.4) or (
+        name.startswith('population') and 'T' in name.split(':')[-1])
     feats['scipy_distribution_generators_set'] = own
     try:
         _set_global(gstate, own)
